@@ -194,6 +194,24 @@ fn main() {
             a0 += step;
         }
     }
+    // full sweeps (exactly +-360 degrees and a little more) from start angles well outside 0..360, larger diameters:
+    // the >= 360 decision is made in floating point
+    {
+        let dsf: Vec<u32> = if th { vec![61, 63, 82, 101, 105, 128] } else { vec![61, 82] };
+        for &dia in &dsf {
+            let mut a = -720 * 2;
+            while a <= 900 * 2 {
+                for (k, sw) in [360, -360, 400].iter().enumerate() {
+                    if !th && (a / 2 + k as i32).rem_euclid(2) != 0 && a % 2 != 0 {
+                        continue;
+                    }
+                    let kind = if (a / 2 + k as i32).rem_euclid(3) == 0 { "arc" } else { "sector" };
+                    run_case(&mut rec, &json!({"t":"ang","shape":{"k":kind,"tl":[-5, 4],"d":dia,"a0":a * 8,"sw":sw * 16}}));
+                }
+                a += if th { 1 } else { 2 };
+            }
+        }
+    }
     // fractional angles
     for k in 0..(if th { 10_000 } else { 500 }) {
         let dia = rng.u32r(1, if th { 128 } else { 64 });
